@@ -772,11 +772,15 @@ MULTI += [
  ("B.r10.default_complete_named_empty", ["C05", "C18"], "src/span.rs", [
    ("            emit_core::emit(&self.emitter, Empty, &self.ctxt, Empty, evt);", "            let no_filter = Empty;\n            let no_clock = Empty;\n            emit_core::emit(&self.emitter, no_filter, &self.ctxt, no_clock, evt);")]),
  ("B.r10.render_sval_match", ["C16"], "core/src/template.rs", [
-   ("""        if let Some(v) = self.as_literal() {
+   ("""impl<'k, P: Props> sval_ref::ValueRef<'k> for Render<'k, P> {
+    fn stream_ref<S: sval::Stream<'k> + ?Sized>(&self, stream: &mut S) -> sval::Result {
+        if let Some(v) = self.as_literal() {
             sval_ref::stream_ref(stream, v)
         } else {
             sval::stream_display(stream, self)
-        }""", """        match self.as_literal() {
+        }""", """impl<'k, P: Props> sval_ref::ValueRef<'k> for Render<'k, P> {
+    fn stream_ref<S: sval::Stream<'k> + ?Sized>(&self, stream: &mut S) -> sval::Result {
+        match self.as_literal() {
             Some(v) => sval_ref::stream_ref(stream, v),
             None => sval::stream_display(stream, self),
         }""")]),
